@@ -30,7 +30,8 @@ def seeds_table():
                 sigs += v["violation_signatures"]
         short = sorted(set("|".join(s.split("|")[1:3]) for s in sigs))
         needs = " ".join(m.get("needs_to_manifest", "").replace("|", "/").split())
-        out.append("| %s | %s | %s | %s |" % (m["id"], needs[:200], ", ".join(p for p, v in det.items() if v["exit"] == 1) or "MISSED",
+        who = ", ".join(p for p, v in det.items() if v["exit"] == 1) or ("equivalent after fix %s (detected before it)" % m["equivalent_after_fix"].split(":")[0] if m.get("equivalent_after_fix") else "MISSED")
+        out.append("| %s | %s | %s | %s |" % (m["id"], needs[:200], who,
                                               "; ".join(short)[:200].replace("|", " / ")))
     return "\n".join(out)
 
